@@ -331,21 +331,7 @@ func recipeCause(r *Recipe) (container, cause string) {
 			}
 		}
 	}
-	many := false
-	for _, s := range r.Streams {
-		if s.Container != "fmp4" {
-			continue
-		}
-		for _, g := range s.Segments {
-			n := 0
-			for _, p := range g.Parts {
-				n += len(p.Tracks)
-			}
-			if n > 10 {
-				many = true
-			}
-		}
-	}
+	many := recipeHasManyPartTracks(r)
 	switch {
 	case many && !unsup && !zero:
 		cause = "more-than-10-part-tracks-per-segment"
@@ -381,6 +367,9 @@ func signature(r *Recipe, rr *runResult) string {
 	case "busy":
 		return fmt.Sprintf("C13:%s:%s:busy-loop", container, cause)
 	case "stall":
+		if recipeHasManyPartTracks(r) { // the wedge needs nothing else
+			container, cause = "fmp4", "more-than-10-part-tracks-per-segment"
+		}
 		return fmt.Sprintf("C13:%s:%s:stall-until-close", container, cause)
 	}
 	return fmt.Sprintf("C13:%s:%s:%s", container, cause, rr.Class)
@@ -1084,13 +1073,13 @@ func main() {
 			"undecodable payloads, MPEG-TS stream types nobody supports, PES without PTS, packet-level truncation, mixed containers, OnTracks error, Close at a request position) " +
 			"plus every fuzz-corpus playlist at every playlist position; distinct by SHA-256 of the recipe; non-trivial = a content recipe with >= 1 deviation " +
 			"whose child fetched at least one media resource (or panicked)",
-		"samples":         samples,
-		"distribution":    dist,
-		"oracle_failures": failures,
-		"infra_errors":    infra,
-		"cases":           cases,
-		"pcases":          pcases,
-		"shards":          shardIdx + 1,
+		"samples":                       samples,
+		"distribution":                  dist,
+		"oracle_failures":               failures,
+		"infra_errors":                  infra,
+		"cases":                         cases,
+		"pcases":                        pcases,
+		"shards":                        shardIdx + 1,
 		"traces_validated_against_impl": len(recipes),
 	}
 	j, _ := json.MarshalIndent(res, "", " ")
@@ -1107,3 +1096,21 @@ func firstN(l []string, n int) []string {
 }
 
 func writeFile(path, content string) error { return os.WriteFile(path, []byte(content), 0o644) }
+
+func recipeHasManyPartTracks(r *Recipe) bool {
+	for _, s := range r.Streams {
+		if s.Container != "fmp4" {
+			continue
+		}
+		for _, g := range s.Segments {
+			n := 0
+			for _, p := range g.Parts {
+				n += len(p.Tracks)
+			}
+			if n > 10 {
+				return true
+			}
+		}
+	}
+	return false
+}
